@@ -1,9 +1,86 @@
 import Driver.Proto
+import Driver.PlyIO
+import PolyVerif.Model.Ply
+import PolyVerif.Model.PlySpec
 
 namespace Driver.C08
+open PolyVerif.Ply PolyVerif.PlySpec Driver.PlyIO
 
-/-- one request -> one answer line; `none` = unknown op / malformed -/
-def handle (_op : String) (_args : List String) : Option String := none
+def pBool : P Bool := do let n ← pNat; pure (n = 1)
+
+def pItems : P (List HItem) := do
+  let n ← pNat
+  rep n (do
+    let k ← tok
+    let t ← pBytes
+    match k with
+    | "c" => pure (HItem.comment t)
+    | "o" => pure (HItem.objInfo t)
+    | _ => failure)
+
+def pDatum (t : SType) : P (Datum Float) :=
+  match t with
+  | .uchar => do let n ← pNat; pure (.u8 (UInt8.ofNat n))
+  | .int => do let i ← pInt; pure (.i32 i)
+  | .float => do let x ← pFloat; pure (.f32 x)
+  | .double => do let x ← pFloat; pure (.f64 x)
+  | _ => failure
+
+/-- SpecFile token form (see go/harness/c08.go `plySpecTok`) -/
+def pSpec : P (SpecFile Float) := do
+  let fmt ← pFormat
+  let crlf ← pBool
+  let pre ← pItems
+  let nvp ← pNat
+  let vprops ← rep nvp (do
+    let n ← pBytes; let t ← pSType; let a ← pBool
+    pure (⟨n, t, a⟩ : SpecProp))
+  let mid ← pItems
+  let post ← pItems
+  let nv ← pNat
+  let verts ← rep nv (vprops.mapM (fun p => pDatum p.ty))
+  let hasFace ← pBool
+  let face : Option (SpecFaceElem Float) ← (if hasFace then do
+      let short ← pBool
+      let ct ← pSType
+      let it ← pSType
+      let ia ← pBool
+      let hasTex ← pBool
+      let tex ← (if hasTex then do let a ← pSType; let b ← pSType; pure (some (a, b)) else pure none)
+      let texFirst ← pBool
+      let ex ← pNat
+      let nf ← pNat
+      let faces ← rep nf (do
+        let k ← pNat
+        let vs ← rep k pNat
+        let nuv ← pNat
+        let uv ← rep nuv pFloat
+        let nex ← pNat
+        let exs ← rep nex pInt
+        pure (⟨vs, uv, exs⟩ : SpecFace Float))
+      pure (some ⟨short, ct, it, ia, tex, texFirst, (if ex = 0 then none else some (ex = 1)), faces⟩)
+    else pure none)
+  pure ⟨fmt, crlf, pre, vprops, mid, post, verts, face⟩
+
+def handle (op : String) (args : List String) : Option String :=
+  match op with
+  | "c08.encode" => do
+      let f ← run pSpec args
+      pure (hexOf (refEncode codingF f))
+  | "c08.read" => do
+      let bs ← run pBytes args
+      pure (resStr meshStr (readMesh codingF defaultReader bs))
+  | "c08.header" => do
+      let bs ← run pBytes args
+      pure (resStr (fun (p : Header × Bytes) => headerStr p.1 ++ s!" rest {p.2.length}") (parseHeader bs))
+  | "c08.holds.meaning" | "c08.holds.uchar_scalar_ascii" | "c08.holds.mixed_type_group"
+  | "c08.holds.ascii_wide_values" | "c08.holds.zero_faces_keep_vertices" => do
+      -- args: <spec> then the implementation's canonical result
+      let (f, rest) ← pSpec args
+      match meaning codingF f with
+      | none => pure "false"
+      | some m => pure (boolStr (meshStr m == " ".intercalate rest))
+  | _ => none
 
 end Driver.C08
 
